@@ -14,6 +14,7 @@ import (
 	"net/http"
 	"net/http/httptest"
 	"reflect"
+	"runtime"
 	"strings"
 	"testing"
 
@@ -200,6 +201,15 @@ func render(v any) string {
 	return string(b)
 }
 
+// brief is render for failure messages (the rapid fail file holds the full case).
+func brief(v any) string {
+	r := render(v)
+	if len(r) > 700 {
+		return r[:700] + "…"
+	}
+	return r
+}
+
 func clip(b []byte) string {
 	if len(b) > 160 {
 		return fmt.Sprintf("%q…(%d bytes)", b[:160], len(b))
@@ -225,15 +235,15 @@ func checkRoundTrip(t fataler, v any, f uint8, comp int, indent string) {
 	want := resolveSer(f)
 	var blob []byte
 	var err error
-	what := fmt.Sprintf("Dump(%s, %s)", render(v), fmtName(f))
+	what := fmt.Sprintf("Dump(%s, %s)", brief(v), fmtName(f))
 	switch {
 	case comp == compNone && indent != "":
-		what = fmt.Sprintf("DumpIndent(%s, %s, %q)", render(v), fmtName(f), indent)
+		what = fmt.Sprintf("DumpIndent(%s, %s, %q)", brief(v), fmtName(f), indent)
 		blob, err = dsd.DumpIndent(v, f, indent)
 	case comp == compNone:
 		blob, err = dsd.Dump(v, f)
 	default:
-		what = fmt.Sprintf("DumpAndCompress(%s, %s, %s)", render(v), fmtName(f), compName(comp))
+		what = fmt.Sprintf("DumpAndCompress(%s, %s, %s)", brief(v), fmtName(f), compName(comp))
 		blob, err = dsd.DumpAndCompress(v, f, uint8(comp))
 	}
 	if err != nil {
@@ -353,6 +363,7 @@ type acceptInfo struct {
 	quoted    bool    // contains a quoted-string parameter
 	owsSemi   bool    // optional whitespace before a ';'
 	params    bool
+	qvalue    bool
 	elements  int
 	firstKind string
 }
@@ -382,7 +393,7 @@ func checkResponse(t fataler, accept string, info acceptInfo, v any) (chosen uin
 		return 0, false
 	}
 	resp := rec.Result()
-	return checkLoadSide(t, fmt.Sprintf("DumpToHTTPResponse(Accept %q, %s)", accept, render(v)), info, v,
+	return checkLoadSide(t, fmt.Sprintf("DumpToHTTPResponse(Accept %q, %s)", accept, brief(v)), info, v,
 		resp.Header.Get("Content-Type"), rec.Body.Bytes(), func(target any) (uint8, error) {
 			resp.Body = io.NopCloser(bytes.NewReader(rec.Body.Bytes()))
 			return dsd.LoadFromHTTPResponse(resp, target)
@@ -434,11 +445,11 @@ func checkRequest(t fataler, f uint8, v any) (dumped bool) {
 	err := dsd.DumpToHTTPRequest(req, v, f)
 	if err != nil {
 		if isMime(f) {
-			t.Fatalf("DumpToHTTPRequest(%s, %s) failed: %v", render(v), fmtName(f), err)
+			t.Fatalf("DumpToHTTPRequest(%s, %s) failed: %v", brief(v), fmtName(f), err)
 		}
 		return false // formats without a media type (AUTO, RAW, GenCode, unknown): an error is fine
 	}
-	what := fmt.Sprintf("DumpToHTTPRequest(%s, %s)", render(v), fmtName(f))
+	what := fmt.Sprintf("DumpToHTTPRequest(%s, %s)", brief(v), fmtName(f))
 	body, err := io.ReadAll(req.Body)
 	if err != nil {
 		t.Fatalf("%s: reading the body: %v", what, err)
@@ -471,7 +482,7 @@ func checkMime(t fataler, accept string, info acceptInfo, v any) {
 		}
 		return
 	}
-	what := fmt.Sprintf("MimeDump(%s, Accept %q)", render(v), accept)
+	what := fmt.Sprintf("MimeDump(%s, Accept %q)", brief(v), accept)
 	cf := checkLoadSide(t, what, info, v, mimeType, data, func(target any) (uint8, error) {
 		return dsd.MimeLoad(data, mimeType, target)
 	})
@@ -575,6 +586,9 @@ func genAccept(t *rapid.T) (string, acceptInfo) {
 			if strings.Contains(p, `"`) {
 				info.quoted = true
 			}
+			if strings.HasPrefix(strings.ToLower(p), "q=") {
+				info.qvalue = true
+			}
 			el += before + ";" + rapid.SampledFrom(owsForms).Draw(t, "owsAfter") + p
 			info.params = true
 		}
@@ -604,6 +618,9 @@ func acceptClasses(info acceptInfo) []string {
 	}
 	if info.params {
 		cl = append(cl, "accept_with_params")
+	}
+	if info.qvalue {
+		cl = append(cl, "accept_with_qvalue")
 	}
 	if info.quoted {
 		cl = append(cl, "accept_with_quoted_param")
@@ -730,7 +747,16 @@ func checkLoadTotal(t fataler, data []byte, targetKind int) (loaded bool, pastID
 	target, _ := newTarget(targetKind)
 	var lf uint8
 	var err error
+	var before, after runtime.MemStats
+	runtime.ReadMemStats(&before)
 	safely(t, "Load", data, func() { lf, err = dsd.Load(data, target) })
+	runtime.ReadMemStats(&after)
+	// "returns a value or an error": memory must stay in proportion to the blob
+	// (gzip expands at most ~1030x). An allocation sized by a length field the blob
+	// merely announces is how a short blob aborts the process with "out of memory".
+	if grown := after.TotalAlloc - before.TotalAlloc; grown > 16<<20+4096*uint64(len(data)) {
+		t.Fatalf("Load(%x) allocated %d bytes for a %d-byte blob (result: %d, %v)", data, grown, len(data), lf, err)
+	}
 	id, n, idOK := refIdentifier(data)
 	pastID = idOK && len(data) > n && (isSerial(id) || id == dsd.GZIP)
 	if err == nil {
